@@ -213,6 +213,11 @@ class Ctx:
             if key not in self.known_hits:
                 self.known_hits[key] = kf.get("what", what or key)
             return "known"
+        # A broken tree can disagree on hundreds of thousands of vectors: only
+        # the first 200 are written out as replay files (all are counted).
+        self.n_disagreements = getattr(self, "n_disagreements", 0) + 1
+        if self.n_disagreements > 200:
+            return "violation"
         os.makedirs(self.replays, exist_ok=True)
         blob = json.dumps(record, sort_keys=True, default=str)
         h = hashlib.sha1(blob.encode()).hexdigest()[:12]
